@@ -62,12 +62,28 @@ def pending_marker(ctx, gate):
     return marks
 
 
+def _noop_attr(ctx):
+    """the attribute in which a new leader remembers the index of the no-op entry it appends"""
+    P, R = ctx.P, ctx.R
+    from .election import become_leader_func
+    from .raftlog import log_op_sites
+    for b in become_leader_func(ctx):
+        for g, c, via in log_op_sites(ctx, 'add'):
+            if g is not b or len(c.args) < 2:
+                continue
+            for n in ast.walk(b.node):
+                if isinstance(n, ast.Assign) and P.self_attr(n.targets[0], b.self_name) and unparse(n.value) == unparse(c.args[1]):
+                    return P.self_attr(n.targets[0], b.self_name)
+    return None
+
+
 @rule('R-gate-live', 'the leader-side gate of membership changes is live: the pending-change marker is set to the index '
                      'of every appended membership entry, and both gates (own no-op applied, previous change applied) '
                      'dominate the mutation')
 def r_gate_live(ctx):
     P, R = ctx.P, ctx.R
     gate, gate_call, mut = change_funcs(ctx)
+    gate = U.bool_returns_normalised(P, gate)       # `return mutate(..) and marker is None` is read as branches
     marks = pending_marker(ctx, gate)
     ctx.require(marks, 'the gate %s refuses on no `is not None` marker' % gate.qualname)
     marker = marks[0]
@@ -147,6 +163,12 @@ def r_gate_live(ctx):
         # own no-op applied: a `le` fact between a no-op index attribute and lastApplied
         la = 'self.' + R.lastApplied
         ok2 = all(any(l[0] in ('le', 'lt') and la in (l[1].key, l[2].key) and l[2].key == la for l in fs) for fs in gres.facts_at(n.id)) and bool(gres.facts_at(n.id))
+        # exactly: the index remembered for the no-op appended on election is applied (`noop - 1 <= lastApplied` lets a change
+        # through one round trip before the leader has committed anything of its own term)
+        noop_attr = _noop_attr(ctx)
+        if ok2 and noop_attr is not None:
+            g2 = ('le', gex.tb.term(U.parse_expr('self.%s' % noop_attr)), gex.tb.term(U.parse_expr(la)))
+            ok2 = all(oracle.entails(fs, g2) for fs in gres.facts_at(n.id))
         ctx.tick()
         if ok1 and ok2:
             ctx.ok(inst, gate.loc(c), 'marker is None and <own no-op index> <= lastApplied entailed')
